@@ -118,7 +118,11 @@ func HarnessC02a() {
 			tgt, md = w2, &mdW2
 		}
 		k, v := verifNondetKey("k"), verifNondetVal("v")
-		switch verifChoose("op", 3) {
+		opsel := []int{0, 1, 2}
+		if verifBoundOr("INSERTONLY", 0) == 1 {
+			opsel = []int{0}
+		}
+		switch opsel[verifChoose("op", len(opsel))] {
 		case 0:
 			err := tgt.Insert(vctx, symKey{k}, v)
 			verifAssert("C01.insert.err", err == nil)
